@@ -35,7 +35,8 @@ def generate(w, tag, seed, num, steps):
         k = json.dumps([s["cmd"] for s in r["steps"]], sort_keys=True)
         if k not in seen:
             seen.add(k)
-            out.append({"names": NAMES, "max_content": 2, "steps": r["steps"]})
+            # every other behaviour produces the rotated root with `tuftool root` commands instead of the harness's writer
+            out.append({"names": NAMES, "max_content": 2, "steps": r["steps"], "tool_roots": len(out) % 2 == 1})
     return out
 
 
@@ -111,6 +112,9 @@ def predicates(prev, s, names):
                 out["C10"].append(f"`{act}` was told versions {want}, the client sees {c['ver']}")
             if c["read"] != op["tset"]:
                 out["C10"].append(f"after `{act}` the listed targets {op['tset']} read back as {c['read']}")
+            told = {"ts": "2090-01-01", "sn": "2090-01-02", "tg": "2090-01-03"}
+            if op.get("exp") != told:
+                out["C10"].append(f"`{act}` was told expirations {told}, the written metadata has {op.get('exp')}")
             if act == "create" and sorted(x for x, v in op["tset"].items() if v) != sorted(cmd["targets"]):
                 out["C10"].append(f"`create` with {cmd['targets']} lists {op['tset']}")
     if act == "update" and s["ok"] and prev is not None and prev["pub"].get("on"):
@@ -190,7 +194,7 @@ def judge(v, pid, rows, stats):
 
 
 def slim(r, upto):
-    return {"in": {"names": r["in"]["names"], "max_content": r["in"]["max_content"], "steps": r["in"]["steps"][: upto + 1]},
+    return {"in": {"names": r["in"]["names"], "max_content": r["in"]["max_content"], "steps": r["in"]["steps"][: upto + 1], "tool_roots": r["in"].get("tool_roots", False)},
             "observed": [{"cmd": s["cmd"], "ok": s["ok"], "out": s["out"][-200:], "obs": s["obs"]} for s in r["steps"][max(0, upto - 1): upto + 1]],
             "lifecycle": True}
 
